@@ -10,6 +10,7 @@ import (
 	"sort"
 	"strings"
 	"sync"
+	"syscall"
 	"time"
 )
 
@@ -156,13 +157,22 @@ func (d *DigestSet) Slice() []uint64 {
 // only how many seeds are run, never what a seed does.
 type Deadline struct{ end time.Time }
 
+// RealNow is the wall clock even inside a synctest bubble (where package time is faked).
+func RealNow() time.Time {
+	var tv syscall.Timeval
+	if err := syscall.Gettimeofday(&tv); err != nil {
+		return time.Now()
+	}
+	return time.Unix(int64(tv.Sec), int64(tv.Usec)*1000)
+}
+
 func NewDeadline(budgetS float64) Deadline {
 	if budgetS <= 0 {
 		return Deadline{}
 	}
-	return Deadline{end: time.Now().Add(time.Duration(budgetS * float64(time.Second)))}
+	return Deadline{end: RealNow().Add(time.Duration(budgetS * float64(time.Second)))}
 }
-func (d Deadline) Expired() bool { return !d.end.IsZero() && time.Now().After(d.end) }
+func (d Deadline) Expired() bool { return !d.end.IsZero() && RealNow().After(d.end) }
 
 func Fatalf(format string, args ...interface{}) {
 	fmt.Fprintf(os.Stderr, "ENGINE-ERROR: "+format+"\n", args...)
